@@ -45,7 +45,7 @@ def load_all_contracts():
 
 
 def _work(job):
-    target, only, timeout_ms = job
+    target, only, timeout_ms, thorough, seed = job
     from pyvc.verify import verify_function
     t0 = time.time()
     try:
@@ -64,7 +64,25 @@ def _work(job):
                         break
             r.seconds += r2.seconds
             r.solver_s += r2.solver_s
+        # run-time twin of the contract on the real code: a concrete failing input for whatever the
+        # solver refuted or left open (and, in the thorough tier, a bounded stand-in for every contract)
+        native_v = None
+        native_stats = None
+        open_ = [c for c, v in r.clauses.items() if v['verdict'] != 'discharged']
+        trials = 0
+        if open_ or r.error or r.unsupported:
+            trials = 400
+        if thorough:
+            trials = max(trials, 3000)
+        if trials:
+            try:
+                from pyvc import native
+                ran, held, errs, native_v = native.search(target, trials, seed)
+                native_stats = {'trials': ran, 'precondition_held': held, 'harness_errors': errs}
+            except Exception:
+                native_stats = {'error': traceback.format_exc()[-600:]}
         return target, {
+            'native_violation': native_v, 'native_stats': native_stats,
             'clauses': r.clauses, 'paths': r.paths, 'seconds': r.seconds, 'solver_s': r.solver_s,
             'error': r.error, 'unsupported': r.unsupported, 'inlined': r.inlined,
             'contracts_used': r.contracts_used, 'notes': r.notes, 'source': r.source_lines,
@@ -72,6 +90,7 @@ def _work(job):
         }
     except Exception:
         return target, {'clauses': {}, 'paths': 0, 'seconds': time.time() - t0, 'solver_s': 0,
+                        'native_violation': None, 'native_stats': None,
                         'error': traceback.format_exc()[-2000:], 'unsupported': None, 'inlined': [],
                         'contracts_used': [], 'notes': [], 'source': ('', 0, 0), 'nqueries': 0}
 
@@ -84,7 +103,7 @@ def load_ledger() -> Dict[str, Any]:
 
 def run_targets(targets: List[str], tier: str, workers: int = 0) -> Dict[str, Dict[str, Any]]:
     timeout_ms = 4000 if tier == 'quick' else 30000
-    jobs = [(t, None, timeout_ms) for t in targets]
+    jobs = [(t, None, timeout_ms, tier == 'thorough', common.seed()) for t in targets]
     workers = workers or min(16, os.cpu_count() or 1, max(1, len(jobs)))
     out = {}
     if len(jobs) == 1 or os.environ.get('PYVC_SERIAL') == '1':
@@ -119,6 +138,22 @@ def results_for_property(prop: str, tier: str, only: Optional[str] = None,
         for n in r['notes']:
             if n not in notes:
                 notes.append(n)
+        nv = r.get('native_violation')
+        ns = r.get('native_stats')
+        if ns and 'trials' in ns:
+            # the run-time twin is a bounded obligation of its own
+            ob = OblResult(id=f'{prop}.B.contract-twin.{t}', kind='B', verdict=DISCHARGED, backend='bounded',
+                           function=t, evaluations=ns['trials'], distinct_nontrivial=ns['precondition_held'],
+                           rule='real function called on objects drawn from generated databases, inside its run-time contract; '
+                                'non-trivial = precondition held', bound=f'{ns["trials"]} seeded argument tuples',
+                           samples=[{'target': t, 'seed': common.seed() * 100003}])
+            if nv is not None:
+                ob.verdict = REFUTED
+                ob.detail = nv['clause'] + ': ' + nv['message'][:300]
+                ob.failures.append(Failure(obligation=ob.id, key=nv['clause'],
+                                           message=nv['message'] + ' | args=' + json.dumps(nv.get('args'), default=repr)[:600],
+                                           recipe={'target': nv['target'], 'seed': nv['seed']}, native=True))
+            results.append(ob)
         if r['error']:
             results.append(OblResult(id=f'{prop}.P.{t}', kind='P', verdict=ERROR, backend='pyvc',
                                      detail='engine error: ' + r['error'], function=t))
@@ -145,11 +180,11 @@ def results_for_property(prop: str, tier: str, only: Optional[str] = None,
                 o.detail = c['detail']
                 cex = c.get('cex') or {}
                 native = None
-                if replay_fn is not None:
-                    try:
-                        native = replay_fn(t, cname, cex)
-                    except Exception:
-                        native = None
+                if nv is not None:
+                    # the concrete failing input is reported by the contract twin (one VIOLATION line)
+                    o.detail = 'refuted; concrete failing input found by the run-time twin: ' + nv['clause']
+                    results.append(o)
+                    continue
                 if native is not None and native.get('violates'):
                     o.failures.append(Failure(obligation=oid, key=native.get('key', cname),
                                               message=native.get('message', c['detail']),
